@@ -3,6 +3,7 @@
 package guidedremediation
 
 import (
+	"context"
 	"errors"
 	"sync"
 
@@ -12,6 +13,8 @@ import (
 	"github.com/google/osv-scalibr/guidedremediation/internal/remediation"
 	"github.com/google/osv-scalibr/guidedremediation/internal/resolution"
 	"github.com/google/osv-scalibr/guidedremediation/internal/strategy/common"
+	"github.com/google/osv-scalibr/guidedremediation/matcher"
+	"github.com/google/osv-scalibr/guidedremediation/options"
 	"github.com/google/osv-scalibr/guidedremediation/result"
 	"github.com/ossf/osv-schema/bindings/go/osvschema"
 )
@@ -107,4 +110,26 @@ func VerifC16ComputePatchesSys(sys resolve.System, reqs []VerifC16Req, vulns []s
 		return common.StrategyResult{VulnIDs: ids, Resolved: res}
 	}
 	return common.ComputePatches(patchFunc, resolved, grouped)
+}
+
+// VerifC16StrategyComputePatches is relax.ComputePatches / override.ComputePatches with their bound patch function spelled
+// out — `common.ComputePatches(func(ids) { patchVulns(ctx, cl, vm, resolved, ids, opts) }, resolved, grouped)` — so that the
+// harness can hold every attempt at its very start (enter blocks) and see it finish (leave): the REAL patchVulns,
+// reqsToRelax / ConstrainingSubgraph, resolution and ConstructPatches run inside. grouped=false: relax, true: override.
+func VerifC16StrategyComputePatches(ctx context.Context, override bool, cl resolve.Client, vm matcher.VulnerabilityMatcher, resolved *remediation.ResolvedManifest,
+	opts *options.RemediationOptions, enter func(ids []string), leave func(ids []string, err error)) ([]result.Patch, error) {
+	patchFn := func(vulnIDs []string) common.StrategyResult {
+		ids := append([]string(nil), vulnIDs...)
+		enter(ids)
+		var patched *remediation.ResolvedManifest
+		var err error
+		if override {
+			patched, err = VerifOverridePatchVulns(ctx, cl, vm, resolved, vulnIDs, opts)
+		} else {
+			patched, err = VerifRelaxPatchVulns(ctx, cl, vm, resolved, vulnIDs, opts)
+		}
+		leave(ids, err)
+		return common.StrategyResult{VulnIDs: vulnIDs, Resolved: patched, Err: err}
+	}
+	return common.ComputePatches(patchFn, resolved, override)
 }
